@@ -1,5 +1,6 @@
 import Jwt.SetGet
 import Jwt.Lemmas.Json
+import Jwt.Lemmas.PipelineSetGet
 /-!
 # C15 — header and claim set/get/delete behave as a typed map
 
@@ -325,5 +326,26 @@ example : setter (fun _ => none) m1 { type := .int, name := some [97], intVal :=
 example : (setter (fun _ => none) m1 { type := .int, name := some [97], intVal := 2, replace := true }).1.objGet [97] = some (.int 2) := by rfl
 example : (getter m1 .str (some [97])).1 = .type ∧ (getter m1 .int (some [98])).1 = .noexist := by decide
 example : setter (fun _ => none) m1 { type := .bool, name := some [] } = (m1, .invalid) := by rfl
+
+/-- **The typed getters are the source's.** `jwt_get_int`, `jwt_get_str`, `jwt_get_bool` are *generated* from
+`jwt-setget.c`; fed with the model's quantities (is the name NULL / empty, is there such a member, has it the type asked
+for) they return the code the model's `getter` returns. -/
+theorem C15_getter_codes_are_source (which : Json) (name : Option Bytes) :
+    ((getter which .int name).1.code =
+      (Jwt.Generated.Pipeline.getInt (nameNull name) (nameEmpty name) ((name.bind which.objGet).isNone) (((name.bind which.objGet).map (isOfType .int)).getD false) 0).1) ∧
+    ((getter which .str name).1.code =
+      (Jwt.Generated.Pipeline.getStr (nameNull name) (nameEmpty name) ((name.bind which.objGet).isNone) (((name.bind which.objGet).map (isOfType .str)).getD false) false 0).1) ∧
+    ((getter which .bool name).1.code =
+      (Jwt.Generated.Pipeline.getBool (nameNull name) (nameEmpty name) ((name.bind which.objGet).isNone) (((name.bind which.objGet).map (isOfType .bool)).getD false) 0).1) :=
+  getter_code_generated which name
+
+/-- `jwt_obj_check` followed by the store, as generated: EXIST for a member that is there (whatever its value) when
+`replace` is off, deletion first when it is on, INVALID when the value cannot be stored -- the code of the model's `checkedSet` -/
+theorem C15_checked_set_is_source (which : Json) (name : Bytes) (v : Option Json) (replace : Bool) :
+    (checkedSet which name v replace).2.code =
+      (Jwt.Generated.Pipeline.setInt false false ((Jwt.Generated.Pipeline.objCheck (which.objGet name).isNone (!replace)).1 = 0)
+        (match v with | none => true | some _ => !(which.isObject && validUtf8 name))
+        (if (Jwt.Generated.Pipeline.objCheck (which.objGet name).isNone (!replace)).1 = 0 then 0 else (Jwt.Generated.Pipeline.objCheck (which.objGet name).isNone (!replace)).1)).1 :=
+  checkedSet_generated which name v replace
 
 end Jwt.Props.C15
